@@ -88,14 +88,14 @@ def cat(*ts, dim):
         t = ts[i].clone()
         if t.Us[dim] is None:
             if t.cores[dim].dim() == 2:
-                t.cores[dim] = torch.zeros(sumshapes[-1], t.cores[dim].shape[-1])
+                t.cores[dim] = torch.zeros(sumshapes[-1], t.cores[dim].shape[-1], dtype=t.cores[dim].dtype)
             else:
                 t.cores[dim] = torch.zeros(
-                    t.cores[dim].shape[0], sumshapes[-1], t.cores[dim].shape[-1]
+                    t.cores[dim].shape[0], sumshapes[-1], t.cores[dim].shape[-1], dtype=t.cores[dim].dtype
                 )
             t.cores[dim][..., sumshapes[i] : sumshapes[i + 1], :] += ts[i].cores[dim]
         else:
-            t.Us[dim] = torch.zeros(sumshapes[-1], t.Us[dim].shape[-1])
+            t.Us[dim] = torch.zeros(sumshapes[-1], t.Us[dim].shape[-1], dtype=t.Us[dim].dtype)
             t.Us[dim][sumshapes[i] : sumshapes[i + 1], :] += ts[i].Us[dim]
         if i == 0:
             result = t
